@@ -134,8 +134,16 @@ func (p *Parser) parseGeneric(sb align.SeqBag) (err error) {
 				if err = sb.AddSequence(curname, curseq.String(), ""); err != nil {
 					return
 				}
+			} else if curname != "" {
+				err = errors.New("A Fasta entry has a name but no sequence (" + curname + ")")
+				return
 			}
 		}
+	}
+
+	if sb.NbSequences() == 0 {
+		err = errors.New("no sequence in this Fasta file")
+		return
 	}
 
 	if p.alphabet == align.BOTH {
